@@ -6,12 +6,14 @@ pub mod c03;
 pub mod c04;
 pub mod c05;
 pub mod c06;
+pub mod c08;
 pub mod c09;
 pub mod c10;
 pub mod c11;
 pub mod c12;
 pub mod c13;
 pub mod c14;
+pub mod c15;
 pub mod c16;
 
 pub fn c03_targeted_small() -> Vec<String> {
@@ -27,12 +29,14 @@ macro_rules! dispatch {
             "C04" => c04::$f($ctx $(, $arg)?),
             "C05" => c05::$f($ctx $(, $arg)?),
             "C06" => c06::$f($ctx $(, $arg)?),
+            "C08" => c08::$f($ctx $(, $arg)?),
             "C09" => c09::$f($ctx $(, $arg)?),
             "C10" => c10::$f($ctx $(, $arg)?),
             "C11" => c11::$f($ctx $(, $arg)?),
             "C12" => c12::$f($ctx $(, $arg)?),
             "C13" => c13::$f($ctx $(, $arg)?),
             "C14" => c14::$f($ctx $(, $arg)?),
+            "C15" => c15::$f($ctx $(, $arg)?),
             "C16" => c16::$f($ctx $(, $arg)?),
             other => {
                 eprintln!("unknown monitor {other}");
